@@ -9,25 +9,33 @@ from . import schemas as S
 
 ID = 'UNIQUE_ID'
 OAL_SCHEMA = {
-    'classes': ['A', 'B', 'L'],
+    'classes': ['A', 'B', 'L', 'P', 'M'],
     'attrs': {'A': [S.at('Id', ID), S.at('N', 'INTEGER'), S.at('S', 'STRING'), S.at('F', 'BOOLEAN'), S.at('Prev_Id', ID)],
               'B': [S.at('Id', ID), S.at('N', 'INTEGER'), S.at('A_Id', ID)],
-              'L': [S.at('A_Id', ID), S.at('B_Id', ID), S.at('W', 'INTEGER')]},
+              'L': [S.at('A_Id', ID), S.at('B_Id', ID), S.at('W', 'INTEGER')],
+              'P': [S.at('Id', ID), S.at('N', 'INTEGER')],
+              'M': [S.at('One_Id', ID), S.at('Other_Id', ID), S.at('W', 'INTEGER')]},
     'assocs': [S.A('R1', 'B', ['A_Id'], 'MC', 'A', ['Id'], '1C'),
                S.A('R2', 'A', ['Prev_Id'], '1C', 'A', ['Id'], '1C', sphrase='succeeds', tphrase='precedes'),
                S.A('R3', 'L', ['A_Id'], '1C', 'A', ['Id'], '1'),
-               S.A('R3', 'L', ['B_Id'], '1C', 'B', ['Id'], '1')],
-    'uniques': {'A': [S.U('I1', 'Id')], 'B': [S.U('I1', 'Id')], 'L': [S.U('I1', 'A_Id', 'B_Id')]},
+               S.A('R3', 'L', ['B_Id'], '1C', 'B', ['Id'], '1'),
+               # a reflexive association class (the shape of tests/test_xtuml/test_phrase.py)
+               S.A('R4', 'M', ['One_Id'], 'MC', 'P', ['Id'], '1', sphrase='one', tphrase='other'),
+               S.A('R4', 'M', ['Other_Id'], 'MC', 'P', ['Id'], '1', sphrase='other', tphrase='one')],
+    'uniques': {'A': [S.U('I1', 'Id')], 'B': [S.U('I1', 'Id')], 'L': [S.U('I1', 'A_Id', 'B_Id')], 'P': [S.U('I1', 'Id')],
+                'M': [S.U('I1', 'One_Id', 'Other_Id')]},
 }
 S.SCHEMAS['oal'] = OAL_SCHEMA
 
-ATTRS = {'A': {'N': 'int', 'S': 'str', 'F': 'bool'}, 'B': {'N': 'int'}, 'L': {'W': 'int'}}
+ATTRS = {'A': {'N': 'int', 'S': 'str', 'F': 'bool'}, 'B': {'N': 'int'}, 'L': {'W': 'int'}, 'P': {'N': 'int'}, 'M': {'W': 'int'}}
 # navigation steps: (from class) -> [(to class, rel, phrase, many)]
 NAV = {
     'A': [('B', 'R1', '', True), ('A', 'R2', "'precedes'", False), ('A', 'R2', "'succeeds'", False), ('L', 'R3', '', False),
           ('B', 'R3', '', False)],
     'B': [('A', 'R1', '', False), ('L', 'R3', '', False), ('A', 'R3', '', False)],
     'L': [('A', 'R3', '', False), ('B', 'R3', '', False)],
+    'P': [('M', 'R4', "'one'", True), ('M', 'R4', "'other'", True), ('P', 'R4', "'one'", True), ('P', 'R4', "'other'", True)],
+    'M': [('P', 'R4', "'one'", False), ('P', 'R4', "'other'", False)],
 }
 
 
@@ -225,7 +233,7 @@ class Gen(object):
 
     def stmt(self, d):
         r = self.rnd
-        kinds = ['assign', 'assign', 'assign', 'create', 'select_from', 'attr_write', 'select_related', 'relate']
+        kinds = ['assign', 'assign', 'assign', 'create', 'select_from', 'attr_write', 'select_related', 'relate', 'relate_using']
         if d < self.maxdepth:
             kinds += ['if', 'if', 'while', 'for']
         if self.loops:
@@ -246,7 +254,7 @@ class Gen(object):
             name = r.choice(old) if old and r.random() < 0.5 else self.fresh(ty)
             return Assign(V(name), e)
         if k == 'create':
-            c = r.choice(['A', 'B', 'A'])
+            c = r.choice(['A', 'B', 'A', 'P', 'M', 'L'])
             name = self.fresh('inst:' + c, 'i')
             self.ok[-1].add(name)
             return {'t': 'create', 'v': name, 'k': c}
@@ -301,6 +309,19 @@ class Gen(object):
                 return {'t': r.choice(['relate', 'relate', 'unrelate']), 'a': x, 'b': y, 'rel': 'R2',
                         'ph': r.choice(["'precedes'", "'succeeds'"]), 'using': ''}
             return None
+        if k == 'relate_using':
+            op = r.choice(['relate', 'relate', 'unrelate'])
+            lp, lm = self.live_insts('P'), self.live_insts('M')
+            la, lb, ll = self.live_insts('A'), self.live_insts('B'), self.live_insts('L')
+            if len(lp) >= 2 and lm and r.random() < 0.6:
+                x, y = r.sample([n for n, _ in lp], 2)
+                return {'t': op, 'a': x, 'b': y, 'rel': 'R4', 'ph': r.choice(["'one'", "'other'"]), 'using': r.choice(lm)[0]}
+            if la and lb and ll:
+                x, y = r.choice(la)[0], r.choice(lb)[0]
+                if r.random() < 0.5:
+                    x, y = y, x
+                return {'t': op, 'a': x, 'b': y, 'rel': 'R3', 'ph': '', 'using': r.choice(ll)[0]}
+            return None
         if k == 'if':
             # a guard on an instance handle makes it usable inside the block
             insts = [(n, t[5:]) for sc in self.scopes for n, t in sc.items() if t.startswith('inst:')]
@@ -313,9 +334,11 @@ class Gen(object):
                     s = self.stmt(d + 1)
                     if s is not None:
                         body.extend(s if isinstance(s, list) else [s])
+                if not body:
+                    body = [Assign(V(self.fresh('int')), I(1))]
                 self.scopes.pop()
                 self.ok.pop()
-                return If(Un('not_empty', V(n)), body or [Assign(V(self.fresh('int')), I(1))])
+                return If(Un('not_empty', V(n)), body)
             c = self.maybe_paren(self.expr('bool'))
             b = self.block(d + 1)
             elifs = [(self.expr('bool'), self.block(d + 1)) for _ in range(r.choice([0, 0, 1, 2]))]
@@ -350,9 +373,11 @@ class Gen(object):
                 if s is not None:
                     body.extend(s if isinstance(s, list) else [s])
             self.loops -= 1
+            if not body:
+                body = [Assign(V(self.fresh('int')), I(2))]
             self.scopes.pop()
             self.ok.pop()
-            return pre + [{'t': 'for', 'v': iv, 's': sn, 'b': body or [Assign(V(self.fresh('int')), I(2))]}]
+            return pre + [{'t': 'for', 'v': iv, 's': sn, 'b': body}]
         if k == 'break':
             return {'t': 'break'}
         if k == 'continue':
@@ -530,6 +555,25 @@ class Gen(object):
             if r.random() < 0.6:
                 body.append({'t': 'relate', 'a': As[i], 'b': As[i + 1], 'rel': 'R2',
                              'ph': r.choice(["'precedes'", "'succeeds'"]), 'using': ''})
+        if r.random() < 0.6:
+            Ps = []
+            for _ in range(r.randint(2, 3)):
+                n = self.fresh('inst:P', 'p')
+                self.ok[-1].add(n)
+                Ps.append(n)
+                body.append({'t': 'create', 'v': n, 'k': 'P'})
+                body.append(Assign(Field(V(n), 'N'), I(r.randint(0, 5))))
+            for _ in range(r.randint(1, 2)):
+                m = self.fresh('inst:M', 'm')
+                self.ok[-1].add(m)
+                body.append({'t': 'create', 'v': m, 'k': 'M'})
+                x, y = r.sample(Ps, 2)
+                body.append({'t': 'relate', 'a': x, 'b': y, 'rel': 'R4', 'ph': r.choice(["'one'", "'other'"]), 'using': m})
+        if As and Bs and r.random() < 0.5:
+            l = self.fresh('inst:L', 'l')
+            self.ok[-1].add(l)
+            body.append({'t': 'create', 'v': l, 'k': 'L'})
+            body.append({'t': 'relate', 'a': r.choice(As), 'b': r.choice(Bs), 'rel': 'R3', 'ph': '', 'using': l})
         return body
 
     def program(self, nstmts=None, final_return=True, setup=False):
